@@ -55,14 +55,22 @@ def _lit(body, t, i):
 def hygiene(prog, chk):
     fe = prog.body(CON + "Connector::from_element")
     chk.touch(fe)
-    pops = {}
-    for (bb, t, c) in fe.call_sites(R.path_endswith("SvgElement::pop_attr")):
-        k = _lit(fe, t, 1)
-        if k:
-            pops[k] = bb
+    from props import C04 as _C04
+    pops, recvs, computed = {}, set(), []
+    for (bb, t, names) in _C04.removal_sites(prog, fe):
+        # pop_attr("start"), remove_attrs(&["start", ..]), remove_attrs(TABLE)
+        if names is None:
+            computed.append(bb)
+            continue
+        for k in names:
+            pops.setdefault(k, bb)
+        recvs.add(R.origin_local(fe, t["args"][0]))
     oks = [x for x, i, s in fe.all_stmts() if "lhs" in s and s["lhs"][0] == 0 and not s["lhs"][1] and s["rv"].get("variant") == "Ok"]
     for k in ("start", "end", "corner-offset"):
         ok = k in pops and bool(oks) and all(fe.dominates(pops[k], x) for x in oks)
+        if not ok and k not in pops and computed:
+            chk.undecided("A14.connector-attrs", k, fe.where(), f"from_element removes attributes by a computed key; whether `{k}` is among them is not decided")
+            continue
         chk.ob(ok, "A14.connector-attrs", k, fe.where(), f"`{k}` is popped from the connector's source element on every successful path", f"`{k}` is not always removed from the source element: it would be copied to the rendered line")
     # the element stored as source_element is the one the attributes were popped from
     ok = False
@@ -73,13 +81,14 @@ def hygiene(prog, chk):
             if "source_element" in fn:
                 op = rv["ops"][fn.index("source_element")]
                 src = R.origin_local(fe, op)
-                pop_recv = {R.origin_local(fe, t["args"][0]) for (bb, t, c) in fe.call_sites(R.path_endswith("SvgElement::pop_attr"))}
-                ok = src is not None and pop_recv == {src}
+                ok = src is not None and recvs == {src}
     chk.ob(ok, "A14.connector-attrs", "source_element", fe.where(), "the rendered connector inherits attributes from the very element the connector attributes were popped from", "source_element is not the stripped copy of the element")
     tm = prog.body("svgdx::element::SvgElement::transmute")
     wo = [(bb, t) for (bb, t, c) in tm.call_sites(R.path_endswith("SvgElement::without_attr")) if _lit(tm, t, 1) == "edge-type"]
     rn = tm.call_sites(R.path_endswith("Connector::render"))
     ok = bool(wo) and bool(rn) and R.origin(tm, wo[0][1]["args"][0], carriers={"branch": 0})[0] == "call"
+    # ... or it is removed from the stripped copy together with the other connector attributes
+    ok = ok or ("edge-type" in pops and bool(oks) and all(fe.dominates(pops["edge-type"], x) for x in oks))
     chk.ob(ok, "A14.connector-attrs", "edge-type", tm.where(), "`edge-type` is stripped from the rendered connector", "`edge-type` is no longer stripped from the rendered connector")
 
 
@@ -229,6 +238,58 @@ def chooser_runs_only_for_unset_ends(prog, chk):
     chk.floor("A15.location-choice:runs-for-unset", n, 4, "(chooser call, receiving end) pair")
 
 
+def _tuple_components(e, n):
+    """the n component expressions lists of a tuple-valued expression (through blocks and both branches of an if)"""
+    while isinstance(e, dict) and e.get("k") in ("DropTemps", "Block") and (e.get("k") != "Block" or e.get("expr") is not None):
+        e = e.get("expr") if e["k"] == "Block" else (e.get("x") or e.get("e"))
+    if not isinstance(e, dict):
+        return None
+    if e.get("k") == "Tup" and len(e.get("items", [])) == n:
+        return [[x] for x in e["items"]]
+    if e.get("k") == "If" and e.get("else") is not None:
+        a, b = _tuple_components(e["then"], n), _tuple_components(e["else"], n)
+        if a and b:
+            return [x + y for x, y in zip(a, b)]
+    return None
+
+
+def _end_sides(h, seeds):
+    """{id(call node): [set of ends per argument]} for every call in the body: which end of the connector ('start' /
+    'end') the value of each argument was computed from.  `seeds` names the locals bound to the two referenced elements;
+    a later `let x = f(seed)` / `let (a, b) = (f(s), g(e))` carries the end on to the new name (shadowing included:
+    the walk is in source order)."""
+    env = {k: {v} for k, v in seeds.items()}
+
+    def sides(e):
+        out = set()
+        for p in hirq.exprs(e, "Path"):
+            l = (p.get("res") or {}).get("local")
+            if l in env:
+                out |= env[l]
+        return out
+
+    calls = {}
+    for n in hirq.walk_ordered(h["body"]):
+        if n.get("k") == "Let" and n.get("init") is not None:
+            pat = n["pat"]
+            if pat.get("p") == "bind":
+                if pat["name"] not in seeds:
+                    env[pat["name"]] = sides(n["init"])
+            elif pat.get("p") == "tuple" and all(q.get("p") == "bind" for q in pat["pats"]):
+                comps = _tuple_components(n["init"], len(pat["pats"]))
+                for k, q in enumerate(pat["pats"]):
+                    if q["name"] in seeds:
+                        continue
+                    env[q["name"]] = set().union(*[sides(x) for x in comps[k]]) if comps else sides(n["init"])
+            else:
+                for q in hirq.walk(pat):
+                    if q.get("p") == "bind" and q.get("name") not in seeds:
+                        env[q["name"]] = sides(n["init"])
+        elif n.get("k") == "Call":
+            calls[id(n)] = [sides(a) for a in n.get("args", [])]
+    return calls
+
+
 def location_choice(prog, chk):
     """when both endpoints are elements: no location given -> shortest_link over both; exactly one given ->
     closest_loc of the free end against the fixed point"""
@@ -244,6 +305,8 @@ def location_choice(prog, chk):
     if scope is None:
         chk.anchor_missing("A15.location-choice", "the (None, None) arm of from_element (both endpoints are elements) was not found")
         return
+    # which end a chooser is asked about is read off the data flow, not off the name of its first argument
+    side_of = _end_sides(h, {"start_el": "start", "end_el": "end"})
     for iff in hirq.exprs(scope, "If"):
         c = iff["cond"]
         if len([1 for m in hirq.exprs(c, "MethodCall") if m["name"] == "is_none"]) == 2 and not (c.get("k") == "Binary" and c.get("op") == "And"):
@@ -256,8 +319,8 @@ def location_choice(prog, chk):
         for n in hirq.exprs(iff["then"], "Call"):
             name = hirq.callee_path(n).split("::")[-1]
             if name in ("shortest_link", "closest_loc"):
-                a0 = hirq.field_chain(n["args"][0]) if n.get("args") else None
-                calls.append((name, a0[0] if a0 else None))
+                sd = (side_of.get(id(n)) or [set()])[0]
+                calls.append((name, {"start": "start_el", "end": "end_el"}[min(sd)] if len(sd) == 1 else None))
         if calls:
             found.setdefault(tuple(nones), calls)
     want = {
@@ -275,6 +338,9 @@ def location_choice(prog, chk):
         ok = any(v[0] in g for g in got)
         if not got:
             chk.undecided("A15.location-choice", "+".join(k), fe.where(), f"no branch for the case {k} found in a readable form")
+            continue
+        if not ok and all(a is None for g in got for (nm, a) in g if nm == v[0][0]):
+            chk.undecided("A15.location-choice", "+".join(k), fe.where(), f"which end {v[0][0]}() is asked about in the case {k} cannot be traced back to one of the two referenced elements")
             continue
         chk.ob(ok, "A15.location-choice", "+".join(k), fe.where(), f"when {' and '.join(k)} {'are' if len(k) > 1 else 'is'} not given: {v[0][0]}({v[0][1]}, ..)", f"missing-location case {k} is wired as {got} (expected {v})")
 
@@ -435,6 +501,11 @@ def axis_lines(prog, chk):
             if mc["name"] in ("max", "min"):
                 vs = sorted({(p.get("res") or {}).get("path", "").split("::")[-1] for p in hirq.exprs(mc, "Path") if "ScalarSpec::" in (p.get("res") or {}).get("path", "")})
                 got[mc["name"]] = vs
+        if not got.get("max") or not got.get("min"):
+            # the max / min are not taken over `scalarspec(ScalarSpec::..)` values in the arm itself (a helper gets the
+            # extents handed in): the evaluated site connector-axis (A17) decides the coordinate
+            chk.undecided("A15.axis-line", name + ":overlap", rd.where(), f"the overlap of the two elements is not computed over ScalarSpec values in the {name} arm itself ({got}); decided by the site connector-axis where it can be evaluated")
+            continue
         chk.ob(got == {"max": [minv], "min": [maxv]}, "A15.axis-line", name + ":overlap", rd.where(), f"{name.lower()}: overlap = [max of the two {minv}, min of the two {maxv}], line through its middle", f"{name} overlap wiring is {got} (expected max over {minv}, min over {maxv})")
         # sibling agreement: both resolve endpoint boxes through the element map
         viamap = [mc for mc in hirq.exprs(arm, "MethodCall") if mc["name"] == "get_element_bbox"]
